@@ -1,11 +1,20 @@
 #!/bin/bash
 # Builds the C13 transcript worker once per vaporetto feature subset from /repo's current tree.
-# usage: tools/build_workers.sh quick|thorough      -> binaries in /verif/target/workers/bin/
+# usage: tools/build_workers.sh quick|thorough [checked]
+#   -> binaries in /verif/target/workers/bin/; with "checked": the same workers compiled with
+#      debug assertions (vaporetto's debug_assert!s and the standard library's checks of unsafe
+#      preconditions) in /verif/target/workers-checked/bin/ (used by C18)
 set -u
 tier=${1:-quick}
+mode=${2:-plain}
 export CARGO_NET_OFFLINE=true
 cd /verif/harness/vworker || exit 2
-BIN=/verif/target/workers/bin
+SUF=""
+if [ "$mode" = checked ]; then
+  SUF="-checked"
+  export RUSTFLAGS="-C debug-assertions=on -C overflow-checks=off"
+fi
+BIN=/verif/target/workers$SUF/bin
 mkdir -p "$BIN"
 base=(std cache-type-score fix-weight-length tag-prediction charwise-pma)
 configs=()
@@ -32,9 +41,9 @@ rm -f "$BIN"/list.txt
 for c in "${configs[@]}"; do
   name="w-$(echo "${c:-alloc}" | tr ',' '+')"
   if [[ "$c" == *portable-simd* ]]; then
-    tool="+nightly"; tdir=/verif/target/workers-nightly
+    tool="+nightly"; tdir=/verif/target/workers$SUF-nightly
   else
-    tool=""; tdir=/verif/target/workers
+    tool=""; tdir=/verif/target/workers$SUF
   fi
   if ! cargo $tool build --release --target-dir "$tdir" --features "$c" >/verif/target/workers-build.log 2>&1; then
     echo "BUILD FAILED for feature set [$c]" >&2; tail -30 /verif/target/workers-build.log >&2; exit 2
